@@ -516,7 +516,7 @@ def _worker(task):
     # changes isinstance(x, datetime.date) inside e.g. gs1_128 - a harness artefact, not library behaviour)
     dates = (DATES[:3] if quick else DATES) if clock_module(modname) else [None]
     nbases = (2 if quick else 4)
-    budget = (90 if quick else 200)
+    budget = (350 if quick else 800)     # enough for EVERY single-position substitution of an 18-character number per base
     valid_seen = 0
     for today in dates:
         with frozen(today):
